@@ -33,6 +33,7 @@ import Mdsort.Model.L0.Mime
 import Mdsort.Model.L0.Util
 import Mdsort.Model.L0.Buffer
 import Mdsort.Model.Start
+import Driver.Sched
 import Mdsort.Model.Opts
 import Mdsort.Model.Strptime
 import Mdsort.Spec.Rfc5322Date
@@ -731,6 +732,98 @@ def handleConformText (args : List Bytes) : String :=
         (Model.mainText env orc rxOkFFI defs confText files input, discards)
   | _ => "BADOP"
 
+/-! ### several parties along one schedule (C17) -/
+
+/-- parties <files> <devs> <parties> <schedule>  (each argument a hex blob of text).
+`<files>`, `<devs>`: as for `conform`.  `<parties>`: one party per line,
+`mdsort <now> <pid> <host> <random> <tmpdir> <home> <confpath> <hex of the block lines>` (a maildir-mode run of `Model.mainP`) or
+`client <op>;<op>...` with `<op>` = `rename,<dir>,<name>,<dir>,<name>` | `unlink,<dir>,<name>` (`Model.clientProg`).
+`<schedule>`: words `i:n` (party `i` issues its next `n` calls, fewer if it finishes) or `i:*` (until it has finished).
+Answer: `OK ST <error flag per party, - = not finished> FS <dump> TR <trace of party 0>|<trace of party 1>... EV <n0>,<n1>...`
+(`EV`: per party, how many successful `unlinkat` calls removed a name that was bound to ANOTHER file than the one the party had
+opened under that name - read from the history, used to tell the listed finding F31 from other losses). -/
+def handleParties (args : List Bytes) : String :=
+  match args with
+  | [filesB, devsB, partiesB, schedB] =>
+    let files : Option Model.Files := (Driver.lines filesB).mapM fun l =>
+      match Driver.words l with
+      | [d, n, c] => do let d ← Driver.unhex d; let n ← Driver.unhex n; let c ← Driver.unhex c; pure (d, n, c)
+      | [d, n, c, _] => do let d ← Driver.unhex d; let n ← Driver.unhex n; let c ← Driver.unhex c; pure (d, n, c)
+      | _ => none
+    let mtimes : List Nat := (Driver.lines filesB).filterMap fun l =>
+      match Driver.words l with
+      | [_, n, _] => if n == "-" then none else some 0
+      | [_, n, _, t] => if n == "-" then none else some ((t.toNat?).getD 0)
+      | _ => none
+    let devs : List (Bytes × Nat) := (Driver.lines devsB).filterMap fun l =>
+      match Driver.words l with
+      | [p, d] => (Driver.unhex p).map fun p => (p, (d.toNat?).getD 0)
+      | _ => none
+    match files with
+    | none => "BADSCENARIO"
+    | some files0 =>
+      let dirNames := (files0.map (·.1)).eraseDups
+      let files := files0.filter fun e => !e.2.1.isEmpty
+      let indexed := files.zipIdx
+      let w0 : Model.World := {
+        dirs := dirNames.map fun d => (d, (indexed.filter fun e => e.1.1 == d).map fun e => (e.1.2.1, e.2)),
+        files := indexed.map fun e => (e.2, { data := e.1.2.2, durable := e.1.2.2 }),
+        mtimes := indexed.map fun e => (e.2, mtimes.getD e.2 0),
+        nextFid := files.length, handles := [], devs := devs, trace := [] }
+      let std : List Model.Obj := [.other, .other, .other]
+      let party (l : String) : Option (Model.Prog Bool × List Model.Obj × Option (Model.Files → Model.Prog Bool)) :=
+        match Driver.words l with
+        | ["mdsort", now, pid, host, random, tmpdir, home, confpath, blocksH] => do
+          let host ← Driver.unhex host; let tmpdir ← Driver.unhex tmpdir; let home ← Driver.unhex home
+          let confpath ← Driver.unhex confpath; let blocksB ← Driver.unhex blocksH
+          let blocks : List Model.ConfBlock ← (Driver.lines blocksB).mapM fun bl =>
+            match Driver.words bl with
+            | "B" :: np :: rest =>
+              let k := (np.toNat?).getD 0
+              match (rest.take k).mapM Driver.unhex, Driver.parseExpr (String.intercalate " " (rest.drop k)) with
+              | some ps, some e => some { paths := ps, expr := e }
+              | _, _ => none
+            | _ => none
+          let env : Model.PEnv := { now := (now.toInt?).getD 0, pid := (pid.toNat?).getD 0, host := host, random := (random.toNat?).getD 0,
+                                    tmpdir := tmpdir, home := home, confpath := confpath, dryrun := false, syntaxOnly := false,
+                                    stdinMode := false }
+          let orc : Model.EvalOracles := { rx := rxFFI, strptime := strptimeEnv, zoneName := zoneEnv env.now }
+          let mk : Model.Files → Model.Prog Bool := fun fs => (Model.mainP env orc true blocks fs []).bind fun x => .ret (x.1 != 0)
+          pure (mk files, std, some mk)
+        | ["client", opsS] => do
+          let raw : List (List String) := (opsS.splitOn ";").map (·.splitOn ",")
+          let dirsOf (o : List String) : List String :=
+            match o with
+            | ["rename", d1, _, d2, _] => [d1, d2]
+            | ["unlink", d, _] => [d]
+            | _ => []
+          let dnames := (raw.flatMap dirsOf).eraseDups
+          let hOf (d : String) : Nat := 3 + (dnames.idxOf d)
+          let ops : List Model.ClientOp ← raw.mapM fun o =>
+            match o with
+            | ["rename", d1, n1, d2, n2] => do
+              let n1 ← Driver.unhex n1; let n2 ← Driver.unhex n2; pure (.rename (hOf d1) n1 (hOf d2) n2)
+            | ["unlink", d, n] => do let n ← Driver.unhex n; pure (.unlink (hOf d) n)
+            | _ => none
+          let dobjs : List Model.Obj ← dnames.mapM fun d => (Driver.unhex d).map fun p => Model.Obj.dir p none 0
+          pure (Model.clientProg ops, std ++ dobjs, none)
+        | _ => none
+      let sched : Option (List (Nat × Option Nat)) := (Driver.words (Driver.asText schedB)).mapM fun t =>
+        match t.splitOn ":" with
+        | [i, "*"] => i.toNat?.map fun i => (i, none)
+        | [i, n] => do let i ← i.toNat?; let n ← n.toNat?; pure (i, some n)
+        | _ => none
+      match (Driver.lines partiesB).mapM party, sched with
+      | some ps, some sched =>
+        let s0 := Model.Shared.init w0 (ps.map fun x => (x.1, x.2.1))
+        let xs0 : List Driver.Sched.PX := ps.map fun x => { inst := x.2.2, view := files, opened := [], acc := [] }
+        match Driver.Sched.run s0 xs0 sched with
+        | .error e => e
+        | .ok (s, xs) =>
+          s!"OK ST {String.intercalate "," (s.parties.map Driver.Sched.statusStr)} FS {fsDump s.fs} TR {String.intercalate "|" (s.parties.map fun p => Driver.Sched.traceStr p.trace)} EV {String.intercalate "," (xs.map fun x => toString x.stale)}"
+      | _, _ => "BADSCENARIO"
+  | _ => "BADOP"
+
 def tokStr : Model.Token → String
   | .eof => "eof"
   | .neg => "neg"
@@ -824,6 +917,7 @@ def handleMsg (side op : String) (args : List Bytes) : Option String :=
   | "M", "locale", [x] => some (let r := localeInfoFFI x.length.toUInt32; s!"{r >>> 8} {r &&& 255}")
   | "M", "conform", as => some (handleConform as)
   | "M", "conformtext", as => some (handleConformText as)
+  | "M", "parties", as => some (handleParties as)
   | "M", "conformargs", as => some (handleConformArgs as)
   | "M", "args", perm :: argv => some (argsAnswer (Model.parseArgs (perm == [49]) argv))
   | "M", "lex", as => some (handleLex as)
